@@ -21,6 +21,10 @@ Round 5: repositories - the attribute a Section inherits from the Sections above
 TemplateHandler.clone_section), written through its setter on both sides, unresolvable includes, what each
 object answers for `get_repository()` in every snapshot (model: `inherited`, theorem
 `clone_inherits_nothing`); the handler asked for what does not exist (`clone_missing`).
+Record tie: the record a merge keeps (`_merged_attrs`, the dict a copy shares with its original) is part of
+every snapshot compared with the model (items and identity of the dict); merge / unmerge / clean steps of the
+counterfactual stream are model operations where the merged Section has no children and no link is to be
+rewritten (block RECORD TIE, `Gen.rec_cases`).
 """
 import os
 import shutil
@@ -259,6 +263,11 @@ class World(object):
             node["m"] = self.idx(m) if m is not None else None
             if m is not None and node["m"] is None:
                 node["m"] = -1
+            # the record of a merge (the one piece of state a copy shares with its original): items and
+            # identity of the dict, compared with the model only (RECORD TIE below; the oracle does not
+            # look at them). Opportunistic: a library without such a dict is not asked about it.
+            if hasattr(obj, "_merged_attrs"):
+                node.update(rec_node_fields(obj))
         if kind in ("doc", "sec"):
             node["s"] = [self.tree(s, depth + 1) for s in obj.sections]
         if kind == "sec":
@@ -276,6 +285,7 @@ class World(object):
 
     def init_table(self):
         out = []
+        classes = rec_classes(self.objs)
         for i, o in enumerate(self.objs):
             kind = kind_of(o)
             par = o.parent if kind != "doc" else None
@@ -288,6 +298,9 @@ class World(object):
             if kind == "sec":
                 m = o.get_merged_equivalent()
                 ent["merged"] = self.idx(m) if m is not None else None
+                if hasattr(o, "_merged_attrs"):
+                    ent["ma"] = rec_items(o)          # the record of a merge made before the case starts
+                    ent["mc"] = classes[i]            # same number = the same dict
             out.append(ent)
         return out
 
@@ -895,6 +908,113 @@ class Gen(object):
             out.insert(at[k] + k, op)
         return out
 
+    # -- the record of a merge, directed (RECORD TIE) -------------------------------------------------
+    def rec_cases(self, rounds):
+        """Link-free histories every step of which the model follows: a Section "s" (no definition /
+        reference, one of its own, or the very text the other Section carries) is merged with a Section
+        without children that has a definition / reference - before the copy is made or only afterwards,
+        on one side or on both, with different Sections -, copied (clone with / without children, clone of
+        the Document, export_leaf), and both sides are unmerged (clean of the Section / of the Document,
+        unmerge), merged again, edited and copied again, in every order."""
+        import itertools
+        r = self.r
+        out = []
+
+        def named(name, n=0):
+            return {"sel": "named", "name": name, "n": n}
+
+        def free(o, psel, **kw):
+            op = {"o": o, "p": psel, "x": self.sel("child"), "q": self.sel("prop"), "pos": 0, "how": 1,
+                  "l": 0, "seed": 0}
+            op.update(kw)
+            return op
+
+        for rnd in range(rounds):
+            for variant in ("none", "own", "same"):
+                for first_kind in ("clone", "clone_doc", "export"):
+                    for pre_merged in (True, False):
+                        sdef = {"none": None, "own": "mine", "same": "D"}[variant]
+                        ssec = {"name": "s", "type": "t", "props": [], "sections": []}
+                        if sdef:
+                            ssec["definition"] = sdef
+                        if r.random() < 0.3:
+                            ssec["reference"] = r.choice(["R", "own ref"])
+                        for nm in r.sample(NAMES, r.choice([0, 1, 2])):
+                            ssec["props"].append(self.prop(nm))
+                        if r.random() < 0.3:
+                            ssec["sections"].append({"name": "sub", "type": "t", "props": [], "sections": []})
+                        tgt = {"name": "tgt", "type": r.choice(["t", "u"]), "props": [], "sections": [],
+                               "definition": "D"}
+                        if r.random() < 0.7:
+                            tgt["reference"] = "R"
+                        tgt2 = {"name": "tgt2", "type": "t", "props": [], "sections": [],
+                                "definition": r.choice(["D2", "D"]), "reference": r.choice(["R2", "R"])}
+                        if r.random() < 0.2:
+                            del tgt2["definition"]
+                        order = [ssec, tgt, tgt2]
+                        if r.random() < 0.3:
+                            order = [tgt, ssec, tgt2]
+                        doc = {"author": "me", "version": None, "sections": order}
+                        self.all_oids(doc)
+                        if first_kind == "clone":
+                            first = {"o": "clone", "root": 0, "children": r.random() < 0.7, "keep": r.random() < 0.4,
+                                     "style": r.choice(["kw", "pos"]), "x": named("s")}
+                        elif first_kind == "clone_doc":
+                            first = {"o": "clone", "root": 0, "children": True, "keep": r.random() < 0.4,
+                                     "style": "kw", "x": self.sel("doc")}
+                        else:
+                            first = {"o": "export", "root": 0, "x": named("s")}
+                        # the Section a copy is merged with: its own one where the copy has one (copy of the
+                        # Document), else the one of the original document
+                        osd = None if first_kind == "clone_doc" else "orig"
+
+                        def unmerge(sd):
+                            how = r.choice(["clean", "clean", "unmerge", "clean_doc"])
+                            if how == "unmerge":
+                                return free("unmerge", named("s"), sd=sd)
+                            if how == "clean_doc" and (sd == "orig" or first_kind != "clone"):
+                                return free("clean", self.sel("doc"), sd=sd)
+                            return free("clean", named("s"), sd=sd)
+
+                        def merge(sd, name):
+                            op = free("sec_merge", named("s"), other=named(name), sd=sd,
+                                      how=r.choice([1, 1, 1, 1, 1, 1, 1, 0]))    # (0: strict)
+                            if sd == "copy" and osd:
+                                op["other_sd"] = osd
+                            return op
+
+                        def edit(sd):
+                            return {"o": "set_attr", "x": named("s"), "which": r.choice([1, 1, 2]),
+                                    "val": r.choice(["Z", "D", "R", "none"]), "sd": sd}
+
+                        def again(sd):
+                            return {"o": r.choice(["clone", "clone", "export"]), "x": named("s", r.choice([0, -1])),
+                                    "children": r.random() < 0.7, "keep": r.random() < 0.5, "style": "kw", "sd": sd}
+
+                        pre = [dict(merge("orig", "tgt"), sd=None)] if pre_merged else []
+                        if pre_merged:
+                            base = [unmerge("copy"), unmerge("orig")]
+                            extras = [merge("copy", "tgt2"), merge("orig", "tgt2"), edit("copy"), edit("orig"),
+                                      again("copy"), again("orig"), unmerge("copy"), unmerge("orig")]
+                            base += r.sample(extras, r.choice([1, 1, 2]))
+                        else:
+                            # merged only after the copy was made: with different Sections on the two sides
+                            a, b = r.choice([("tgt", "tgt2"), ("tgt2", "tgt"), ("tgt", "tgt")])
+                            base = [merge("orig", a), merge("copy", b), unmerge("copy"), unmerge("orig")]
+                            if r.random() < 0.4:
+                                base.append(r.choice([edit("copy"), edit("orig"), again("copy")]))
+                        perms = list(itertools.permutations(range(len(base))))
+                        if len(perms) > 6:
+                            perms = r.sample(perms, 6)
+                        for perm in perms:
+                            ops = [dict(base[k]) for k in perm]
+                            case = {"stream": "free", "cf": True, "rec": True, "doc": doc, "side": "mixed",
+                                    "first": first, "ops": ops}
+                            if pre:
+                                case["pre"] = [dict((k, v) for k, v in op.items() if k != "sd") for op in pre]
+                            out.append(case)
+        return out
+
     def ops(self, n, free, mixed=False, handler=False):
         out = [self.edit(free) for _ in range(n)]
         if mixed:
@@ -951,9 +1071,13 @@ class Exec(object):
                  # round 4: relative to the most recent copy made on this side; merged Sections
                  "lastcopy": ("sec", "prop"), "in_lastcopy": ("sec", "prop"), "lastsrc": ("sec", "prop"),
                  "lastsrc_tree": ("doc", "sec"), "lastsrc_par": ("doc", "sec"), "lastsrc_up": ("doc", "sec"),
-                 "merged": ("sec",), "mroot": ("doc", "sec")}[what]
+                 "merged": ("sec",), "mroot": ("doc", "sec"),
+                 # the Sections of that name (directed histories: `Gen.rec_cases`)
+                 "named": ("sec",)}[what]
         cands = [i for i, o in enumerate(w.objs) if w.side_obj.get(i) == side and w.idx(o) == i
                  and kind_of(o) in kinds]
+        if what == "named":
+            cands = [i for i in cands if w.objs[i].name == sel["name"]]
         if what in ("lastcopy", "in_lastcopy", "lastsrc", "lastsrc_tree", "lastsrc_par", "lastsrc_up"):
             src, ret = self.last_clone.get(side, (None, None))
             rel = []
@@ -1616,22 +1740,32 @@ class Exec(object):
                 elif fam == "str":
                     prop.dtype = "text"
             return self.do(rop, fn)
+        # clean / unmerge / sec_merge: what the model can follow (RECORD TIE: every merged Section involved
+        # is merged with a Section without children, no link to rewrite) is noted in the operation as
+        # the model operations it amounts to ("mops", decided BEFORE the call); otherwise oracle only
         if o == "clean":
+            rec_note(rop, rec_plan_clean(w, p))
             return self.do(rop, lambda: w.objs[p].clean())
         if o == "unmerge":
             # what clean() does for a merged Section, called directly
             y = self.pick({"sel": "merged", "n": op["l"]}, side)
             if y is None or w.objs[y].get_merged_equivalent() is None:
                 return
+            rec_note(rop, rec_plan_unmerge(w, y))
             return self.do(rop, lambda: w.objs[y].unmerge(w.objs[y].get_merged_equivalent()))
         if o == "sec_merge":
-            other = self.pick({"sel": "sec", "n": op["pos"] + 7}, side)
+            # ("other": the Section to merge with, by selector; "other_sd": it is a Section of the other
+            # side - a copy merged with a Section of the original document, which is only read)
+            other = self.pick(op["other"], op.get("other_sd") or side) if "other" in op else \
+                self.pick({"sel": "sec", "n": op["pos"] + 7}, side)
             if other is None or kind_of(w.objs[p]) != "sec" or other == p:
                 return
+            strict = op.get("how", 1) % 4 == 0
+            rec_note(rop, rec_plan_merge(w, p, other, strict))
 
             def fn():
                 # (strict or not: with strict the attributes of equally named Properties must agree)
-                w.objs[p].merge(w.objs[other], strict=op.get("how", 1) % 4 == 0)
+                w.objs[p].merge(w.objs[other], strict=strict)
             ret = self.do(rop, fn)
             self.reregister(side)
             return ret
@@ -2254,7 +2388,11 @@ class C11(fw.Check):
             "cannot be resolved, each of them also as a template file; the repository written through "
             "its setter ('' and None included), Document date, Property uncertainty and "
             "dependency_value among the edits; TemplateHandler.clone_section for a name / a file that "
-            "does not exist, then again for one that does; "
+            "does not exist, then again for one that does; link-free histories (a Section without / with a "
+            "definition of its own merged with childless Sections before or after the copy, clone / Document "
+            "clone / export_leaf, both sides unmerged, merged again, edited, copied again, in every order) "
+            "that the model follows to the end, the record of the merge (items, identity of the dict) "
+            "compared after every step; "
             "every parentless object and every caller-held list is "
             "snapshotted after every operation. Non-trivial = the case has at least one edit that "
             "was carried out; distinct = distinct canonical JSON of the case.")
@@ -2416,6 +2554,8 @@ class C11(fw.Check):
                     case["doc"] = g.unlinked(doc)
                     case.pop("term", None)
                 cases.append(case)
+        # the record of a merge, directed: link-free histories the model follows step by step (RECORD TIE)
+        cases += g.rec_cases(1 if tier == "quick" else 6)
         return cases
 
     @staticmethod
@@ -2443,8 +2583,11 @@ class C11(fw.Check):
     # -- model ---------------------------------------------------------------
     @staticmethod
     def modelled(case, obs):
+        # the counterfactual stream (link-rich documents, clean / unmerge / merge histories on both sides,
+        # the directed histories of `Gen.rec_cases`) is followed by the model as far as it goes: up to
+        # the first operation outside the model (see `rec_plan`); the other free streams are oracle only
         if case["stream"] == "free":
-            return False
+            return bool(case.get("cf"))
         return True
 
     def model_requests(self, case, obs):
@@ -2456,29 +2599,29 @@ class C11(fw.Check):
             e = dict(ent)
             e["id"] = ids.setdefault(ent["id"], len(ids))
             init.append(e)
-        ops = []
-        for st in obs["steps"][1:]:
-            rop = dict(st["op"])
-            if rop.get("free"):
-                break
-            ops.append(rop)
-        return [{"p": "C11", "init": init, "ops": ops}]
+        with_rec, ops, _at = rec_plan(obs)
+        return [{"p": "C11", "rec": with_rec, "init": init, "ops": ops}]
 
     def compare(self, case, obs, answers):
         if not answers:
             return []
         out = []
         msteps = answers[0]["steps"]
-        for i, (ist, mst) in enumerate(zip(obs["steps"], msteps)):
+        _with_rec, _ops, at = rec_plan(obs)
+        if len(msteps) != at[-1] + 1:
+            return ["the model answered %d steps, %d operations were sent" % (len(msteps), at[-1])]
+        for i in range(len(at)):
+            ist, mst = obs["steps"][i], msteps[at[i]]
             if i > 0:
+                # (a step that amounts to several model operations is carried out iff all of them are)
                 iok = "ok" in ist["out"]
-                mok = "ok" in mst["out"]
-                if iok != mok:
+                bad = [m["out"] for m in msteps[at[i - 1] + 1:at[i] + 1] if "ok" not in m["out"]]
+                if iok != (not bad):
                     out.append("step %d %s: implementation %s, model %s"
-                               % (i, ist["op"], ist["out"], mst["out"]))
+                               % (i, ist["op"], ist["out"], bad[0] if bad else mst["out"]))
                     break
-            a = canon_ids(ist["snap"])
-            b = canon_ids(mst["snap"])
+            a = rec_canon(canon_ids(ist["snap"]))
+            b = rec_canon(canon_ids(mst["snap"]))
             if fw.canon(a) != fw.canon(b):
                 out.append("step %d %s: snapshots differ: implementation %s model %s"
                            % (i, ist["op"], fw.canon(a)[:1500], fw.canon(b)[:1500]))
@@ -2491,6 +2634,10 @@ class C11(fw.Check):
             return []
         out = []
         steps = obs["steps"]
+        if any("ma" in ent for ent in obs["init"]):
+            # the record fields are for the tie with the model only: the oracle speaks about what the
+            # public API shows (and about the counterfactual runs)
+            steps = [dict(st, snap=rec_strip(st["snap"])) for st in steps]
         side_of = {}            # table index -> side, rebuilt from the steps
         n0 = len(obs["init"])
         for i in range(n0):
@@ -2763,7 +2910,13 @@ class C11(fw.Check):
         if "steps" not in obs:
             return (case["stream"] + ":failed", False)
         done = sum(1 for s in obs["steps"][1:] if "ok" in s["out"])
-        extra = "".join("+" + k for k in ("twins", "nest", "cf") if case.get(k))
+        extra = "".join("+" + k for k in ("twins", "nest", "cf", "rec") if case.get(k))
+        if self.modelled(case, obs):
+            # "+mtie<n>": n merge / unmerge / clean steps of this case (n <= 3, "3" = three or more) are
+            # followed by the model (RECORD TIE); the sum over the tags = cases that reach such a step
+            n = rec_tied_steps(obs)
+            if n:
+                extra += "+mtie%d" % min(n, 3)
         return ("%s%s:%s:%s" % (case["stream"], extra, case["first"]["o"], case.get("side")), done >= 2)
 
     def finding_key(self, case, obs, failure):
@@ -2772,7 +2925,11 @@ class C11(fw.Check):
 
 # ============================================================================= RECORD TIE
 # Added 2026-09-30 (proof extension: the record of a merge, `_merged_attrs`, in the model).
-# NOT WIRED INTO THE CHECK: nothing above calls anything below. For the coordinator to wire in.
+# WIRED IN (2026-09-30): World.tree / World.init_table carry "ma" / "mc", Exec.free_edit notes for every
+# clean / unmerge / sec_merge the model operations it amounts to ("mops": rec_plan_clean / rec_plan_unmerge /
+# rec_plan_merge, decided before the call), C11.model_requests / compare follow the modelled prefix of the
+# counterfactual stream (rec_plan), Gen.rec_cases adds link-free histories the model follows to the end;
+# the oracle does not look at the record fields (rec_strip).
 #
 # The model (Model/Clone.lean) has the dicts `_merged_attrs` as a fourth address space and the driver
 # (Driver/C11.lean) speaks about them when the request carries "rec": true:
@@ -2840,6 +2997,105 @@ def rec_unmerge_modelled(x, t):
     if not (kind_of(x) == "sec" and kind_of(t) == "sec"):
         return False
     return (len(t.sections) == 0 and len(t.properties) == 0 and x._link is None and not (x == t))
+
+
+def rec_strict_cannot_refuse(x, s):
+    """`merge_check` with strict=True compares definition / reference only where both Sections have one
+    (identical texts agree under every normalisation; what else it accepts or refuses is not modelled)."""
+    return all(getattr(x, k) is None or getattr(s, k) is None or getattr(x, k) == getattr(s, k)
+               for k in ("definition", "reference"))
+
+
+def rec_plan_merge(w, x, s, strict):
+    """`objs[x].merge(objs[s], strict)` as model operations, or None (not modelled)."""
+    try:
+        xo, so = w.objs[x], w.objs[s]
+        if not (hasattr(xo, "_merged_attrs") and rec_merge_modelled(xo, so)):
+            return None
+        if strict and not rec_strict_cannot_refuse(xo, so):
+            return None
+        return [{"o": "merge_attrs", "x": x, "s": s, "record": bool(rec_record_flag(xo))}]
+    except Exception:
+        return None
+
+
+def rec_plan_unmerge(w, x):
+    """`objs[x].unmerge(<the Section it is merged with>)` as model operations, or None."""
+    try:
+        xo = w.objs[x]
+        t = xo.get_merged_equivalent()
+        if t is None or not hasattr(xo, "_merged_attrs") or not rec_unmerge_modelled(xo, t):
+            return None
+        return [{"o": "unmerge_attrs", "x": x}]
+    except Exception:
+        return None
+
+
+def rec_plan_clean(w, p):
+    """`objs[p].clean()`: every merged Section at and below the object is unmerged from the Section it is
+    merged with, top down (Section.clean, Sectionable.clean). A list of model operations - empty when
+    nothing is merged there: clean changes nothing - or None as soon as one of them is not modelled (an
+    unmerge from a Section without children removes no child: the walk sees the tree clean will see)."""
+    ops = []
+
+    def walk(obj, depth):
+        kind = kind_of(obj)
+        if depth > 40:
+            raise ValueError("too deep")
+        if kind == "sec":
+            t = obj.get_merged_equivalent()
+            if t is not None:
+                i = w.idx(obj)
+                if i is None or not hasattr(obj, "_merged_attrs") or not rec_unmerge_modelled(obj, t):
+                    raise ValueError("not modelled")
+                ops.append({"o": "unmerge_attrs", "x": i})
+        if kind in ("doc", "sec"):
+            for sub in obj.sections:
+                walk(sub, depth + 1)
+    try:
+        walk(w.objs[p], 0)
+    except Exception:
+        return None
+    return ops
+
+
+def rec_note(rop, mops):
+    if mops is not None:
+        rop["mops"] = mops
+
+
+def rec_plan(obs):
+    """The modelled prefix of a run: (model operations, `at`), `at[i]` = number of model operations carried
+    out when step i of the implementation is over (at[0] = 0; a step may amount to none or to several).
+    The prefix ends at the first operation outside the model."""
+    with_rec = any("ma" in ent for ent in obs["init"])
+    ops, at = [], [0]
+    for st in obs["steps"][1:]:
+        rop = st["op"]
+        if rop.get("free"):
+            if not with_rec or not isinstance(rop.get("mops"), list):
+                break
+            ops.extend(dict(m) for m in rop["mops"])
+        else:
+            ops.append(dict((k, v) for k, v in rop.items() if k != "mops"))
+        at.append(len(ops))
+    return with_rec, ops, at
+
+
+def rec_tied_steps(obs):
+    """How many merge / unmerge / clean steps of the run the model follows (clean of something merged)."""
+    _w, _ops, at = rec_plan(obs)
+    return sum(1 for i in range(1, len(at)) if obs["steps"][i]["op"].get("mops"))
+
+
+def rec_strip(snap):
+    """The snapshot without the record fields (what the oracle looks at)."""
+    def walk(node):
+        out = dict((k, v) for k, v in node.items() if k not in ("ma", "mc"))
+        out["s"] = [walk(x) for x in node["s"]]
+        out["p"] = [walk(x) for x in node["p"]]
+        return out
+    return {"roots": dict((k, walk(v)) for k, v in snap["roots"].items()), "lists": snap["lists"]}
 
 
 def record_tie_selftest(verbose=False):
